@@ -70,6 +70,9 @@ def ndarray2utpm(A):
     shp = numpy.shape(A)
     A = numpy.ravel(A)
     retval = zeros(shp,dtype=A[0])
+    if isinstance(retval, algopy.UTPM):
+        # the result holds every element: common dtype of all elements, not the dtype of the first one
+        retval = algopy.UTPM(retval.data.astype(numpy.result_type(*[a.data.dtype for a in A])))
 
     for na, a in enumerate(A):
         retval[numpy.unravel_index(na, shp)] = a
